@@ -5,6 +5,7 @@
 package netkit
 
 import (
+	"github.com/ftrvxmtrx/fd"
 	"strings"
 	"crypto/tls"
 	"bytes"
@@ -103,8 +104,46 @@ func DialConn(addr string) (gonet.Conn, error) {
 		return gonet.Dial("tcp", addr[6:])
 	case strings.HasPrefix(addr, "tcps://"):
 		return tls.Dial("tcp", addr[7:], &tls.Config{InsecureSkipVerify: true})
+	case strings.HasPrefix(addr, "pipe://"):
+		return dialPipe(addr[7:])
 	}
 	return nil, fmt.Errorf("netkit: unsupported address %q", addr)
+}
+
+// pipeConn is the client side of the pipe:// transport: a unix socket over
+// which the two ends hand each other one end of a pipe, then talk through the
+// pipes.
+type pipeConn struct {
+	*gonet.UnixConn
+	r, w *os.File
+}
+
+func (p *pipeConn) Read(b []byte) (int, error)         { return p.r.Read(b) }
+func (p *pipeConn) Write(b []byte) (int, error)        { return p.w.Write(b) }
+func (p *pipeConn) SetWriteDeadline(t time.Time) error { return p.w.SetWriteDeadline(t) }
+func (p *pipeConn) Close() error {
+	p.r.Close()
+	p.w.Close()
+	return p.UnixConn.Close()
+}
+
+func dialPipe(name string) (gonet.Conn, error) {
+	conn, err := gonet.DialUnix("unix", nil, &gonet.UnixAddr{Name: name, Net: "unix"})
+	if err != nil {
+		return nil, err
+	}
+	r, w, err := os.Pipe()
+	if err != nil {
+		return nil, err
+	}
+	if err = fd.Put(conn, r); err != nil {
+		return nil, err
+	}
+	fds, err := fd.Get(conn, 1, nil)
+	if err != nil || len(fds) != 1 {
+		return nil, fmt.Errorf("netkit: pipe transport: no descriptor received: %v", err)
+	}
+	return &pipeConn{UnixConn: conn, r: fds[0], w: w}, nil
 }
 
 // DialBare opens the connection underneath the transport: for tcps:// a TCP
@@ -378,6 +417,9 @@ func StartServerOn(transport string, auth bus.Authenticator) (*Env, error) {
 		return nil, err
 	}
 	addr := "unix://" + filepath.Join(dir, "s")
+	if transport == "pipe" {
+		addr = "pipe://" + filepath.Join(dir, "p")
+	}
 	if transport == "tcp" || transport == "tcps" {
 		l, err := gonet.Listen("tcp", "127.0.0.1:0")
 		if err != nil {
